@@ -18,7 +18,7 @@ def run(ctx):
     drv = ctx.build("c07")
     if ctx.thorough:   # (the quick universe is explored, with the same invariants, by the edges run below)
         ctx.model_check("trie/MCTrieCommit", "trie/MCTrieCommitThorough", timeout=T * 2, workers=8, name="MCTrieCommit", coverage=True)
-    ctx.model_check("trie/MCTrieCommit", "trie/MCTrieCommitHash", timeout=T, workers=4, name="MCTrieCommitHash")
+    ctx.model_check("trie/MCTrieCommit", ctx.pick("trie/MCTrieCommitHash", "trie/MCTrieCommitHashThorough"), timeout=T, workers=4, name="MCTrieCommitHash")
     # R: every Commit edge
     res = ctx.model_check("trie/MCTrieCommit", "trie/MCTrieCommitEdges", tags=("EDGE",), timeout=T, workers=4, name="MCTrieCommitEdges")
     edges = parse_edges(res)
@@ -28,7 +28,7 @@ def run(ctx):
     write_json(ep, edges)
     ctx.drive(drv, ["-mode", "edges", "-in", ep, "-pad", 0, "-nib", "0,1", "-keylen", 2], name="c07-edges", timeout=T)
     # MC: the mechanism (dirty flags, opTracer, PrevalueTracer, committer walk) refines the abstract commit
-    ctx.model_check("trie/MCTrieCommitMech", "trie/MCTrieCommitMech", timeout=T * 2, workers=4, name="MCTrieCommitMech", coverage=ctx.thorough)
+    ctx.model_check("trie/MCTrieCommitMech", ctx.pick("trie/MCTrieCommitMech", "trie/MCTrieCommitMechThorough"), timeout=T * 2, workers=4, name="MCTrieCommitMech", coverage=ctx.thorough)
     # R: simulated multi-generation behaviours with the exact node set predicted by the mechanism
     # model, 2-byte and 32-byte keys; plus behaviours of the abstract model
     for mod, cfg, pad, nib, num, depth in ctx.pick(
